@@ -474,3 +474,8 @@ def buf_bytes(ex, st, fr, ins, args):
 def vp_note(ex, st, fr, ins, args):
     st.notes.append((_name(args[0]), args[1]))
     return None
+
+
+@intercept('vph/vp.AbsF32')
+def vp_absf32(ex, st, fr, ins, args):
+    return fpops.fabs(args[0])
